@@ -114,7 +114,7 @@ fn c08_worker(ctx: &WorkerCtx) -> Result<(), Fail> {
         }
     }
     // generated full 64-bit occupancies (independence from off-ray squares, sampled)
-    let n = ctx.share(ctx.tier.pick(4_000_000, 60_000_000));
+    let n = ctx.share(ctx.tier.pick(40_000_000, 200_000_000));
     let mut g = Expand(ctx.wseed(88));
     for i in 0..n {
         let s = (g.next() % 64) as u8;
@@ -593,7 +593,7 @@ fn c14_worker(ctx: &WorkerCtx) -> Result<(), Fail> {
     }
     use proptest::strategy::Strategy;
     let strat = (score_strategy(), score_strategy(), score_strategy()).prop_map(|(a, b, c)| (mk_score(a.0, a.1), mk_score(b.0, b.1), mk_score(c.0, c.1)));
-    run_proptest(ctx, 14, ctx.share(ctx.tier.pick(400_000, 40_000_000)), strat, |(a, b, c)| tj(*a, *b, *c), |(a, b, c), st| {
+    run_proptest(ctx, 14, ctx.share(ctx.tier.pick(4_000_000, 40_000_000)), strat, |(a, b, c)| tj(*a, *b, *c), |(a, b, c), st| {
         c14_triple(*a, *b, *c)?;
         st.eval(1);
         if !structurally_equal(*a, *b) || !structurally_equal(*b, *c) {
@@ -694,7 +694,7 @@ fn c16_worker(ctx: &WorkerCtx) -> Result<(), Fail> {
     }
     st.class("all 2 x 65536 mate scores");
     let mut g = Expand(ctx.wseed(16));
-    let n = ctx.share(ctx.tier.pick(2_000_000, 40_000_000));
+    let n = ctx.share(ctx.tier.pick(10_000_000, 80_000_000));
     for k in 0..n {
         let x = match k % 4 {
             0 => g.next() as i32,
